@@ -68,7 +68,7 @@ FLOORS = {
               'join_returns_checked': 35, 'join_steps': 70,
               'surplus_task_done_refused': 25, 'task_done': 3000,
               'empty_contended': 25, 'spawn_scenarios': 2,
-              'preput_scenarios': 4, 'inject_yields': 5000,
+              'preput_scenarios': 4, 'inject_yields': 5000, 'line_targets': 30,
               'fifo_pairs_checked': 5000},
     'thorough': {'items_put': 40000, 'items_got': 40000, 'large_items': 300,
                  'seq_ops': 40000, 'seq_full': 8000, 'seq_empty': 3000,
@@ -78,7 +78,7 @@ FLOORS = {
                  'join_returns_checked': 250, 'join_steps': 500,
                  'surplus_task_done_refused': 200, 'task_done': 25000,
                  'empty_contended': 150, 'spawn_scenarios': 10,
-                 'preput_scenarios': 30, 'inject_yields': 40000,
+                 'preput_scenarios': 30, 'inject_yields': 40000, 'line_targets': 60,
                  'fifo_pairs_checked': 40000},
 }
 JOBS = 12
@@ -109,6 +109,8 @@ def plan(tier, seed):
         specs.append({'mode': 'xfer', 'seed': b + 200 + i,
                       'scenarios': 2 if q else 4, 'scale': 0.5 if q else 1.0,
                       'flavour': ['spawn', 'forkserver'][i % 2]})
+    for i in range(3 if q else 6):
+        specs.append({'mode': 'lines', 'seed': b + 250 + i, 'part': i % 3, 'parts': 3})
     for i in range(4 if q else 10):
         specs.append({'mode': 'join', 'seed': b + 300 + i,
                       'scenarios': 8 if q else 20})
@@ -301,34 +303,72 @@ _INJ = {'on': False, 'n': 0}
 _TOOL = 4
 
 
-def install_injection(seed, who, prob=0.2, maxsleep=0.001):
-    """sleep briefly at random line boundaries inside the queue methods, to let
-    the feeder thread / other parties run between two statements"""
+INJ_FUNCS = (('Queue', 'put'), ('Queue', 'get'), ('JoinableQueue', 'put'),
+             ('JoinableQueue', 'task_done'), ('JoinableQueue', 'join'))
+
+
+def code_lines(code):
+    return sorted({ln for (_s, _e, ln) in code.co_lines()
+                   if ln is not None and ln != code.co_firstlineno})
+
+
+def install_injection(seed, who, mode='random', target=None, prob=0.2, maxsleep=0.001):
+    """sleep briefly at line boundaries inside the queue methods, to let the
+    feeder thread / other parties run between two statements.
+
+    mode 'random'  : at random lines of put/get/task_done/join
+         'slow_put': at *every* line of Queue.put / JoinableQueue.put
+         'slow_get': at every line of Queue.get
+         'slow_td' : at every line of task_done / join
+         'line'    : 2-4 ms before one chosen line (target = [class, method,
+                     index of the line]) and nowhere else
+    """
     if _INJ['on']:
         return True
     try:
         from billiard import queues as bq
         M = sys.monitoring
-        codes = []
-        for cls, names in ((bq.Queue, ('put', 'get')),
-                           (bq.JoinableQueue, ('put', 'task_done', 'join'))):
-            for n in names:
-                f = cls.__dict__.get(n)
-                if f is not None:
-                    codes.append(f.__code__)
+        the_line = None
+        if mode == 'line':
+            code = getattr(bq, target[0]).__dict__[target[1]].__code__
+            the_line = code_lines(code)[target[2]]
+            codes = [code]
+        else:
+            want = {'random': ('put', 'get', 'task_done', 'join'), 'slow_put': ('put',),
+                    'slow_get': ('get',), 'slow_td': ('task_done', 'join')}[mode]
+            codes = []
+            for cls in (bq.Queue, bq.JoinableQueue):
+                for n in want:
+                    f = cls.__dict__.get(n)
+                    if f is not None:
+                        codes.append(f.__code__)
         r = rng_for(seed, 'inj', who)
         rnd, slp = r.random, time.sleep
         tl = threading.local()
+        every = mode in ('slow_put', 'slow_get', 'slow_td')
 
         def on_line(code, line):
             if getattr(tl, 'busy', False):
                 return
-            x = rnd()
-            if x < prob:
+            if the_line is not None:
+                if line != the_line:
+                    return
                 tl.busy = True
                 try:
                     _INJ['n'] += 1
-                    slp(0 if x < prob * 0.3 else rnd() * maxsleep)
+                    slp(0.002 + rnd() * 0.002)
+                finally:
+                    tl.busy = False
+                return
+            x = rnd()
+            if every or x < prob:
+                tl.busy = True
+                try:
+                    _INJ['n'] += 1
+                    if every:
+                        slp(0.0003 + x * 0.0009)
+                    else:
+                        slp(0 if x < prob * 0.3 else rnd() * maxsleep)
                 finally:
                     tl.busy = False
         M.use_tool_id(_TOOL, 'vmon-c16')
@@ -505,7 +545,7 @@ def proc_entry(role, q, cfg, k, workdir, slot):
     log = Log(os.path.join(workdir, '%s%d.log' % (role, k)))
     prog = Progress(os.path.join(workdir, 'prog.bin'))
     if cfg.get('inject'):
-        install_injection(cfg['seed'], (role, k))
+        install_injection(cfg['seed'], (role, k), cfg['inject'], cfg.get('inject_target'))
     BODIES[role](q, cfg, k, log, prog, slot)
 
 
@@ -587,13 +627,23 @@ def gen_xfer(r, flavour, scale, seed):
         return 'proc'
     slow_prod = r.random() < 0.25
     stall = r.random() < 0.45
+    inject = None
+    if not simple:
+        inject = r.choices([None, 'random', 'slow_put', 'slow_get', 'slow_td'],
+                           [50, 20, 18, 6, 6])[0]
+        if inject == 'slow_td' and qkind != 'JoinableQueue':
+            inject = 'random'
+    if inject == 'slow_put' and flavour in ('thread', 'mixed'):
+        P = max(P, 2)        # several producer threads share one feeder thread
+    n_scale = {'slow_put': 0.3, 'slow_get': 0.4}.get(inject, 1.0)
     producers, consumers = [], []
     for k in range(P):
         style = 'block' if simple else r.choice(['block', 'block', 'timed', 'nowait'])
         producers.append({
-            'n': max(3, int(r.randint(*n_rng) * scale)), 'style': style, 'sizes': sizes,
+            'n': max(3, int(r.randint(*n_rng) * scale * n_scale)), 'style': style, 'sizes': sizes,
             'timeout': r.choice([0, 0.0005, 0.003, 0.02, 0.1]),
-            'pace': r.choice([0.001, 0.003]) if slow_prod else 0.0, 'how': how()})
+            'pace': r.choice([0.001, 0.003]) if slow_prod else 0.0,
+            'how': 'thread' if (inject == 'slow_put' and flavour == 'mixed' and k < 2) else how()})
     for k in range(C):
         style = 'block' if simple else r.choice(['block', 'block', 'timed', 'nowait', 'any'])
         consumers.append({
@@ -601,13 +651,16 @@ def gen_xfer(r, flavour, scale, seed):
             # passed once the reader lock is held; same in CPython) - it is
             # only issued by the 'any' style, mixed with the other forms
             'style': style,
-            'timeout': r.choice([0, 0.0004, 0.002, 0.01, 0.05] if style == 'any'
+            # (and a timed get whose lines are slowed down needs a timeout that
+            # outlasts the injected sleeps, or it can never succeed either)
+            'timeout': r.choice([0.05, 0.3] if inject == 'slow_get' else
+                                [0, 0.0004, 0.002, 0.01, 0.05] if style == 'any'
                                 else [0.0004, 0.002, 0.01, 0.05, 0.3]),
             'stall': (r.choice([0.0005, 0.002, 0.004]) * (3 if sizes == 'large' else 1)) if stall else 0.0,
             'stall_p': r.choice([0.1, 0.3, 0.6]), 'how': how()})
     cfg = {'seed': seed, 'qkind': qkind, 'method': method, 'flavour': flavour,
            'maxsize': maxsize, 'sizes': sizes, 'producers': producers,
-           'consumers': consumers, 'inject': (not simple) and r.random() < 0.3,
+           'consumers': consumers, 'inject': inject,
            'preput': 0, 'joiners': []}
     if not simple and r.random() < 0.3:
         cfg['preput'] = r.randint(1, maxsize) if maxsize else r.randint(2, 12 if sizes == 'large' else 40)
@@ -711,7 +764,7 @@ def run_xfer(rec, cfg, wd):
             if p.how != 'thread':
                 p.start()
         if cfg['inject'] and any(p.how == 'thread' for p in parties):
-            injected_here = install_injection(seed, 'parent')
+            injected_here = install_injection(seed, 'parent', cfg['inject'], cfg.get('inject_target'))
         for p in everyone:
             if p.how == 'thread':
                 p.start()
@@ -1046,7 +1099,7 @@ def judge_xfer(rec, cfg, attrs, logs, plines, slines, hang, surplus, sem_end, in
                  0 if not maxsize else (1 if maxsize == 1 else 2), cfg['sizes'],
                  ''.join(sorted({p['style'][0] for p in cfg['producers'][:P]})),
                  ''.join(sorted({c['style'][0] for c in cfg['consumers']})),
-                 int(any(c['stall'] for c in cfg['consumers'])), int(cfg['inject']),
+                 int(any(c['stall'] for c in cfg['consumers'])), cfg['inject'] or '-',
                  int(bool(cfg['preput'])), b(n_full), b(len(timed)), int(reached),
                  int(maxbuf >= 2), min(big_cons, 2)])
     rec.sample({'scenario': brief, 'qkind': cfg['qkind'],
@@ -1543,6 +1596,47 @@ def run_empty(rec, r, seed, wd):
 
 
 # --------------------------------------------------------------------------
+# lines: a pause before each single statement of the queue methods, in turn
+# --------------------------------------------------------------------------
+
+def gen_lines(r, seed, cls, fn, idx):
+    qkind = cls if cls == 'JoinableQueue' else r.choice(['Queue', 'JoinableQueue'])
+    maxsize = r.choice([0, 2, 3])
+    producers = [{'n': r.randint(25, 40), 'style': r.choice(['block', 'timed']),
+                  'sizes': 'small', 'timeout': 0.05, 'pace': 0.0, 'how': 'thread'}
+                 for _ in range(2)]
+    consumers = [{'style': st, 'timeout': 0.05, 'stall': 0.0, 'stall_p': 0.0, 'how': 'thread'}
+                 for st in ('block', r.choice(['timed', 'any', 'block']))]
+    cfg = {'seed': seed, 'qkind': qkind, 'method': 'fork', 'flavour': 'thread',
+           'maxsize': maxsize, 'sizes': 'small', 'producers': producers,
+           'consumers': consumers, 'inject': 'line', 'inject_target': [cls, fn, idx],
+           'preput': 0, 'joiners': ['thread'] if qkind == 'JoinableQueue' else []}
+    producers.append({'n': 0, 'style': 'block', 'sizes': 'small', 'how': 'parent'})
+    return cfg
+
+
+def run_lines(spec, rec, r, root):
+    from billiard import queues as bq
+    targets = []
+    for cls, fn in INJ_FUNCS:
+        f = getattr(bq, cls, None)
+        f = f.__dict__.get(fn) if f is not None else None
+        if f is None:
+            rec.missing('%s.%s' % (cls, fn))
+            continue
+        for idx in range(len(code_lines(f.__code__))):
+            targets.append((cls, fn, idx))
+    mine = [t for i, t in enumerate(targets) if i % spec['parts'] == spec['part']]
+    for i, (cls, fn, idx) in enumerate(mine):
+        cfg = gen_lines(r, spec['seed'] * 100 + i, cls, fn, idx)
+        rec.count('line_targets')
+        if not run_xfer(rec, cfg, os.path.join(root, 'l%d' % i)):
+            rec.flush()
+            return
+        rec.flush()
+
+
+# --------------------------------------------------------------------------
 
 def run_spec(spec, rec):
     import gc
@@ -1565,6 +1659,8 @@ def run_spec(spec, rec):
                 rec.flush()
                 return          # threads may be stuck for good: stop this spec
             rec.flush()
+    elif mode == 'lines':
+        run_lines(spec, rec, r, root)
     elif mode == 'join':
         for i in range(spec['scenarios']):
             if not run_join(rec, r, seed * 100 + i, os.path.join(root, 'j%d' % i)):
